@@ -29,8 +29,8 @@ def signature(ev, mm):
     out = ev["out"]
     if out in ("error", "panic"):
         out += ":" + msg_class(ev["msg"])
-    return "C42|%s|%s|%s/%s|out=%s|changed=%d|same=%d" % (ev["mode"], ev["kind"], mm.get("class", "?"), mm.get("family", "?"),
-                                                        out, int(ev["changed"]), int(ev["same"]))
+    return "C42|%s|%s|%s/%s|out=%s|changed=%d|same=%d|tab=%s" % (ev["mode"], ev["kind"], mm.get("class", "?"), mm.get("family", "?"),
+                                                               out, int(ev["changed"]), int(ev["same"]), ev.get("tab", "any"))
 
 
 def enumerate_cases(path):
@@ -38,7 +38,7 @@ def enumerate_cases(path):
     lib.tlc_ok(r, "ReadOnlyModes enumeration")
     seen, cases = set(), []
     for t in r.jsons("TR"):
-        key = (t["mode"], t["kind"])
+        key = (t["mode"], t["kind"], t["tab"])
         if key in seen:
             continue
         seen.add(key)
@@ -46,7 +46,7 @@ def enumerate_cases(path):
         if t["mode"] == "ro_db_mem" and t["class"] != "reads":
             continue
         cases.append(t)
-    cases.sort(key=lambda c: (c["mode"], c["class"], c["kind"]))
+    cases.sort(key=lambda c: (c["mode"], c["class"], c["kind"], c["tab"]))
     lib.write_ndjson(path, cases)
     return r, cases
 
@@ -107,7 +107,7 @@ def judge_and_confirm(binp, cases_path, sc, tag, v, extra=None, shards=1):
         for ev, m in mms:
             if ev["id"] not in again:
                 raise lib.Inconclusive("mismatch did not reproduce in isolation: %s %s %s" % (ev["mode"], ev["rep"], ev["sql"]))
-            det = {"mode": ev["mode"], "kind": ev["kind"], "rep": ev["rep"], "sql": ev["sql"], "out": ev["out"], "msg": ev["msg"],
+            det = {"mode": ev["mode"], "kind": ev["kind"], "tab": ev.get("tab", "any"), "rep": ev["rep"], "sql": ev["sql"], "out": ev["out"], "msg": ev["msg"],
                    "changed": ev["changed"], "diff": ev.get("diff"), "rw_out": ev["rw_out"], "same": ev["same"], "expected": m.get("exp")}
             if extra:
                 det.update(extra)
@@ -184,7 +184,7 @@ def replay(path):
     binp = lib.build("c42")
     with lib.Scratch() as sc:
         cp = os.path.join(sc, "cases.ndjson")
-        lib.write_ndjson(cp, [{"mode": det["mode"], "kind": det["kind"]}])
+        lib.write_ndjson(cp, [{"mode": det["mode"], "kind": det["kind"], "tab": det.get("tab", "any")}])
         obs, _ = run_cases(binp, cp, sc, "replay")
         evs, mms, incs, _ = validate(obs, sc, "replay")
         bad = [(e, m) for e, m in mms if e["rep"] == det["rep"]]
